@@ -34,7 +34,7 @@ func c02Leaves() []c02leafSpec {
 func init() {
 	register(&Property{
 		ID:   "C02",
-		Dirs: []string{"root"},
+		Dirs: []string{"root", "internal/strings"},
 		Jobs: func(tier string) []Job {
 			ctxs := []string{"leaf", "not", "inv", "or", "or_rev", "and", "not_or", "or_inv", "or_notl", "or_notinv"}
 			n, pP, sn, sP, strlen := 2, 3, 2, 2, 1
@@ -75,6 +75,8 @@ func init() {
 					jobs = append(jobs, Job{Harness: "VX_C02_leaf", Params: p})
 				}
 			}
+			// like/ilike as Filter comparators: state carried between calls (the semantics of patterns is C18's)
+			jobs = append(jobs, c18seqJobs()...)
 			return jobs
 		},
 		Bounds: func(tier string) string {
